@@ -76,9 +76,9 @@ def scripts_for(pid, tier, seed, fx):
                 rnd([f], 12 if thorough else 4, 60)
     elif pid == "C10":
         for _, p in KINDS:
-            for f in (p + "_cif", p + "_cif_lru2", p + "_inv_cif"):
+            for f in (p + "_cif", p + "_cif_lru2", p + "_inv_cif", p + "_cif_mem", p + "_cif_ttl2"):
                 for s in seqs([(1, True), (1, False), (2, True), (2, False)], 5 if thorough else 4):
-                    add([f], [{"op": "call", "f": f, "k": k, "cif": c, "inv": False} for (k, c) in s]
+                    add([f], [{"op": "call", "f": f, "k": k, "cif": c, "inv": False, "size": 60} for (k, c) in s]
                         + [{"op": "call", "f": f, "k": 3, "cif": True}, {"op": "call", "f": f, "k": 1, "cif": True}])
                 rnd([f], 12 if thorough else 4, 60)
             f = p + "_res_cif"
@@ -94,6 +94,11 @@ def scripts_for(pid, tier, seed, fx):
                     add([f], [{"op": "call", "f": f, "k": k, "inv": i, "cif": True} for (k, i) in s]
                         + [{"op": "call", "f": f, "k": 1, "inv": False}, {"op": "call", "f": f, "k": 2, "inv": False}])
                 rnd([f], 12 if thorough else 4, 60)
+            f = p + "_inv_mem"
+            for s in seqs([(1, True, 50), (1, False, 50), (1, True, 130), (2, True, 60), (2, False, 130)], 4 if thorough else 3):
+                add([f], [{"op": "call", "f": f, "k": k, "inv": i, "size": sz} for (k, i, sz) in s]
+                    + [{"op": "call", "f": f, "k": 1, "inv": False, "size": 50}, {"op": "call", "f": f, "k": 2, "inv": False, "size": 50}])
+            rnd([f], 12 if thorough else 4, 60)
             f = p + "_inv_ttl2"
             alpha = [{"op": "call", "f": f, "k": 1, "inv": True}, {"op": "call", "f": f, "k": 1, "inv": False},
                      {"op": "tick", "d": 1}, {"op": "call", "f": f, "k": 2, "inv": False}]
@@ -121,6 +126,11 @@ def scripts_for(pid, tier, seed, fx):
                     add([f], [{"op": "call", "f": f, "t": t, "k": k} for (t, k) in s]
                         + [{"op": "call", "f": f, "t": 3, "k": 1}, {"op": "call", "f": f, "t": 3, "k": 2}], threads=3)
             rnd([tf, sf, af], 10 if thorough else 3, 80, threads=4, nkeys=4)
+        for tf in ("t_tags", "t_deps"):
+            for s in seqs([(1, 1), (1, 2), (2, 1), (2, 2), (3, 1)], 5 if thorough else 4):
+                add([tf], [{"op": "call", "f": tf, "t": t, "k": k} for (t, k) in s]
+                    + [{"op": "call", "f": tf, "t": t, "k": k} for t in (1, 2, 3) for k in (1, 2)], threads=3)
+            rnd([tf, "g_a"], 10 if thorough else 4, 60, threads=3, nkeys=3, registry=True)
     elif pid == "C15":
         names = ["s_plain", "a_plain", "s_lru2", "a_lfu3_ttl2", "s_ttl1", "a_ttl1", "s_res", "a_res_cif",
                  "g_alias", "g_alias_async", "g_a", "g_dep", "s_inv", "a_inv_ttl2", "s_mem_lru", "a_mem_fifo"]
